@@ -12,8 +12,9 @@ the interner returns) is proved over the interner model of XrayModel/Lex.lean in
 -/
 import XrayProofs.Scope
 import XrayProofs.Closure
+import XrayModel.ScopeRun
 namespace XrayModel.C03
-open XrayModel.Scope XrayModel.Core
+open XrayModel.Scope XrayModel.Core XrayModel.ScopeRun
 
 /-! ## capture threading -/
 
@@ -201,6 +202,46 @@ declaration among its requirements is fulfilled -/
 theorem forward_gate_host (root : Scope) (x : String) (k : Nat) (h : hostGet root x = .ok k) :
     ∀ r ∈ root.cellReqs k, ∀ f, forwardRef [root] r = .ok f → f.fulfilled = true :=
   hostGet_ok root x k h
+
+/-! ## run-time resolution of a pending (forward) capture — known finding, `_partial` + witness -/
+
+/-- FULL STATEMENT (false of the code, see the witness below):
+  ∀ arena caller d pid cell, (arena[d]?.map (·.tid) = some pid) → readPending arena caller pid cell = definingCell arena d cell
+i.e. a pending capture reads the activation in which the function was created, wherever it is called from.
+What holds: it does when the function is called from its defining activation itself … -/
+theorem runtime_capture_agrees_partial (arena : List Act) (d pid cell : Nat) (act : Act)
+    (hd : arena[d]? = some act) (ht : act.tid = pid) :
+    readPending arena (some d) pid cell = definingCell arena d cell := by
+  simp [readPending, findParent, definingCell, hd, ht]
+
+/-- … or from an activation whose scope-parent chain reaches the defining activation before any other
+activation of the same template -/
+theorem runtime_capture_agrees_partial_chain (arena : List Act) (c d pid cell : Nat) (cact : Act)
+    (hc : arena[c]? = some cact) (hne : cact.tid ≠ pid) (hp : cact.scopeParent = some d) (act : Act)
+    (hd : arena[d]? = some act) (ht : act.tid = pid) :
+    readPending arena (some c) pid cell = definingCell arena d cell := by
+  have hl : arena.length + 1 = (arena.length - 1 + 1) + 1 := by
+    have : c < arena.length := by
+      rcases Nat.lt_or_ge c arena.length with h | h
+      · exact h
+      · rw [List.getElem?_eq_none_iff.mpr h] at hc; cases hc
+    omega
+  simp only [readPending]
+  rw [hl]
+  simp [findParent, definingCell, hc, hne, hp, hd, ht]
+
+/-- witness of the defect: two activations (1 and 2) of the same function `outer` (template 1) under the root
+(template 0); the closure made in activation 1 (cell 0 = 1) is called from activation 2 (cell 0 = 100): it reads
+100; called from the root it panics (`none`) -/
+theorem runtime_capture_wrong_activation :
+    ¬ ∀ (arena : List Act) (caller : Option Nat) (d pid cell : Nat),
+      (arena[d]?.map (·.tid) = some pid) → readPending arena caller pid cell = definingCell arena d cell := by
+  intro h
+  have := h [⟨0, none, []⟩, ⟨1, some 0, [some 1]⟩, ⟨1, some 0, [some 100]⟩] (some 2) 1 1 0 (by decide)
+  revert this
+  decide
+
+example : readPending [⟨0, none, []⟩, ⟨1, some 0, [some 1]⟩] (some 0) 1 0 = none := by decide
 
 /-! ## closures and defaults (core evaluator) -/
 
